@@ -12,6 +12,7 @@ CONSTANTS
   MaxMarks = 2
   PropAllowed = TRUE
   SetAllAllowed = TRUE
+  LateEdges = FALSE
   RoundNodes <- RN_4_0
 INIT MCInit
 NEXT MCNext
